@@ -44,6 +44,7 @@ string c16_iter_case_2(const std::vector<string>& t);   // fmrow, al, tr
 string c16_iter_case_3(const std::vector<string>& t);   // ir
 string c16_misc_case(const std::vector<string>& t);     // sl, trl, idxrun, irange, sirange, tr, sparse
 string c16_hy_case(const std::vector<string>& t);       // hy
+string c16_extra_case(const std::vector<string>& t);    // harness/C16/impl2.cc: cont, bcmp, bstep, trx, rutil, iseq, hyx
 
 static std::vector<string> split(const string& s, char sep = ' ')
 {
@@ -208,6 +209,12 @@ template<class F> static string do_step(F& fx, const string& var, int i, int k)
     if (i + 1 <= n) { It r = it0; It old = r++; os << " postinc=" << ptok(fx, old) << "/" << ptok(fx, r); } else os << " postinc=-";
     if (i - 1 >= lo) { It r = it0; It old = r--; os << " postdec=" << ptok(fx, old) << "/" << ptok(fx, r); } else os << " postdec=-";
     if constexpr (HasNPlus<F>::value) { It r = k + it0; os << " nplus=" << ptok(fx, r); }
+    { It r(it0); os << " copy=" << ptok(fx, r); }                          // copy construction
+    { It r; r = it0; os << " assign=" << ptok(fx, r); }                    // default construction + assignment
+    if constexpr (std::is_convertible_v<typename F::M, typename F::K>) {
+      { typename F::K c(fx.m(i)); os << " conv=" << ptok(fx, c); }         // const iterator from mutable iterator
+      { typename F::K c; c = fx.m(i); os << " convassign=" << ptok(fx, c); }
+    } else os << " conv=n/a convassign=n/a";
     return os.str();
   };
   if (var == "m") return body(fx.m(i));
@@ -386,7 +393,9 @@ template<class Base, class PT> static string idx_run(Base begin, ll i0, const st
     else if (o[0] == 'p') it += std::stoi(o.substr(1));
     else if (o[0] == 'm') it -= std::stoi(o.substr(1));
   }
-  return "pos=" + pt((const Base&) it) + " index=" + std::to_string((ll) it.index());
+  Dune::IndexedIterator<Base> d;                        // default construction, then assignment
+  d = it;
+  return "pos=" + pt((const Base&) it) + " index=" + std::to_string((ll) it.index()) + " dindex=" + std::to_string((ll) d.index()) + " dpos=" + pt((const Base&) d);
 }
 static string idx_case(const std::vector<string>& t)      // idxrun <base> <n> <i0> <ops>
 {
@@ -417,6 +426,18 @@ template<class T> static string irange_obs(const Dune::IntegralRange<T>& r, cons
   os << " at=" << join(at) << " cont=";
   if (xs.empty()) os << "-";
   for (ll x : xs) os << (r.contains((T) x) ? '1' : '0');
+  {                                                   // the other constructors: from a pair, and [0,to) when from == 0
+    T from = *r.begin(), to = *r.end();
+    Dune::IntegralRange<T> rp(std::pair<T, T>(from, to));
+    std::vector<string> pl; int c2 = 0; for (auto v : rp) { if (++c2 > 40) break; pl.push_back(num<T>(v)); }
+    os << " pair=" << join(pl);
+    if (from == 0) {
+      std::vector<string> l1, l2; c2 = 0;
+      for (auto v : Dune::IntegralRange<T>(to)) { if (++c2 > 40) break; l1.push_back(num<T>(v)); }
+      c2 = 0; for (auto v : Dune::range(to)) { if (++c2 > 40) break; l2.push_back(num<T>(v)); }
+      os << " one=" << join(l1) << " rone=" << join(l2);
+    } else os << " one=- rone=-";
+  }
   return os.str();
 }
 template<class T> static string irange_case(const std::vector<string>& t)
@@ -443,6 +464,23 @@ template<class T, T to, T from> static string sirange_obs(const std::vector<stri
   std::vector<string> sq;
   Dune::unpackIntegerSequence([&](auto... i) { (sq.push_back(num<T>(decltype(i)::value)), ...); }, typename R::integer_sequence{});
   os << " seq=" << join(sq);
+  {
+    std::vector<string> sa, fl, tis;
+    if constexpr ((std::size_t) sz > 0) {
+      auto first = r[std::integral_constant<std::size_t, 0>{}]; auto last = r[std::integral_constant<int, (int) sz - 1>{}];
+      static_assert(Dune::IsIntegralConstant<decltype(first)>::value);
+      sa.push_back(num<T>(decltype(first)::value)); sa.push_back(num<T>(decltype(last)::value));
+    }
+    auto fac = Dune::range(std::integral_constant<T, from>{}, std::integral_constant<T, to>{});      // static factory
+    static_assert(std::is_same_v<decltype(fac), R>);
+    for (auto v : fac) fl.push_back(num<T>(v));
+    typename R::integer_sequence cs = r;                                                            // conversion operator
+    Dune::unpackIntegerSequence([&](auto... i) { (tis.push_back(num<T>(decltype(i)::value)), ...); }, R::to_integer_sequence());
+    (void) cs;
+    os << " ats=" << join(sa) << " fac=" << join(fl) << " tis=" << join(tis);
+    if constexpr (from == 0) { std::vector<string> f1; for (auto v : Dune::range(std::integral_constant<T, to>{})) f1.push_back(num<T>(v)); os << " fac1=" << join(f1); }
+    else os << " fac1=n/a";
+  }
   Dune::IntegralRange<T> dyn = r;                 // cast into the dynamic range
   std::vector<string> dl; for (auto v : dyn) dl.push_back(num<T>(v));
   os << " dyn=" << join(dl) << " cont=";
@@ -488,6 +526,10 @@ template<class Rg> static string tr_obs(Rg&& base, ll a, ll b, bool ra, bool has
   // the const view gives the same sequence
   const auto& cr = r; std::vector<ll> cel; for (auto&& v : cr) cel.push_back((ll) v);
   os << " const=" << join(cel);
+  if constexpr (requires { cr[0]; }) { std::vector<ll> at; for (std::size_t i = 0; i < n; ++i) at.push_back((ll) cr[i]); os << " cat=" << join(at); }
+  else os << " cat=-";
+  { std::vector<ll> raw, craw; for (auto&& v : r.rawRange()) raw.push_back((ll) v); for (auto&& v : cr.rawRange()) craw.push_back((ll) v);
+    os << " raw=" << join(raw) << " craw=" << join(craw); }
   return os.str();
 }
 static string tr_case(const std::vector<string>& t)           // tr <base> <a> <b> <xs>
@@ -728,6 +770,8 @@ int main(int argc, char** argv)
         else out = c16_misc_case(t);
       }
       else if (t[0] == "hy") out = c16_hy_case(t);
+      else if (t[0] == "cont" || t[0] == "bcmp" || t[0] == "bstep" || t[0] == "ncmp" || t[0] == "nstep" || t[0] == "trx" || t[0] == "rutil"
+               || t[0] == "iseq" || t[0] == "hyx" || t[0] == "sparsex" || t[0] == "arrow" || t[0] == "prim") out = c16_extra_case(t);
       else out = c16_misc_case(t);
     } catch (const std::exception& e) { out = string("EXC ") + e.what(); }
     std::cout << out << std::endl;
